@@ -358,13 +358,73 @@ package decimal
 //@   status assumed assembly
 //@ func mulAdd10VWW(z, x []Word, y, r Word) (c Word)
 //@   same mulAdd10VWW_g
-//@   status assumed assembly
+//@   asm dec_arith_amd64.s
+//@   label L10 invariant[range] 0 <= SI && SI < len(z) && DI == len(z) && R11 < B
+//@   label L10 invariant[words] wordsok(z[:SI])
+//@   label L10 invariant[value] V(z[:SI]) + R11*P(SI) == old(V(x[:SI]))*y + r
+//@   label L10 invariant[rest]  forall k in SI..len(z) :: x[k] == old(x[k])
+//@   label L10 modifies mem(z)
+//@   label L10 hint[head] mul_mono(x[SI], B-1, y)
+//@   label L10+5 hint assert(DX*18446744073709551616 + AX == old(x[SI])*y + R11 && DX < B)
+//@   label L10 hint assert(R11*B + z[SI-1] == R13*18446744073709551616 + R14 && z[SI-1] < B && SI == SI_0 + 1)
+//@   label L10 hint assert(R11*B + z[SI-1] == old(x[SI-1])*y + R11_0 && z[SI-1] < B && R11 < B && SI == SI_0 + 1)
+//@   label L10 hint Vdef(z, 0, SI-1)
+//@   label L10 hint Vdef(old(x), 0, SI-1)
+//@   label L10 hint Pdef(SI-1)
+//@   label L10 hint mul_eq(V(old(x), 0, SI), V(old(x), 0, SI-1) + old(x[SI-1])*P(SI-1), y)
+//@   label L10 hint mul_eq(R11*B + z[SI-1], old(x[SI-1])*y + R11_0, P(SI-1))
+//@   label L10 hint mul_eq(P(SI), B*P(SI-1), R11)
+//@   hint[ret] len(z) > 0 ==> assert(R11*B + z[SI-1] == R13*18446744073709551616 + R14 && z[SI-1] < B && SI == SI_0 + 1)
+//@   hint[ret] len(z) > 0 ==> assert(R11*B + z[SI-1] == old(x[SI-1])*y + R11_0 && z[SI-1] < B && R11 < B && SI == SI_0 + 1)
+//@   hint[ret] len(z) > 0 ==> Vdef(z, 0, len(z)-1)
+//@   hint[ret] len(z) > 0 ==> Vdef(old(x), 0, len(z)-1)
+//@   hint[ret] len(z) > 0 ==> Pdef(len(z)-1)
+//@   hint[ret] len(z) > 0 ==> mul_eq(V(old(x), 0, SI), V(old(x), 0, SI-1) + old(x[SI-1])*P(SI-1), y)
+//@   hint[ret] len(z) > 0 ==> mul_eq(R11*B + z[SI-1], old(x[SI-1])*y + R11_0, P(SI-1))
+//@   hint[ret] len(z) > 0 ==> mul_eq(P(SI), B*P(SI-1), R11)
+//@   tags safety C04,C07
 //@ func addMul10VVW(z, x []Word, y Word) (c Word)
 //@   same addMul10VVW_g
-//@   status assumed assembly
+//@   asm dec_arith_amd64.s
+//@   label L11 invariant[range] 0 <= SI && SI < len(z) && DI == len(z) && R11 < B
+//@   label L11 invariant[words] wordsok(z[:SI])
+//@   label L11 invariant[value] V(z[:SI]) + R11*P(SI) == old(V(z[:SI])) + old(V(x[:SI]))*y
+//@   label L11 invariant[rest]  forall k in SI..len(z) :: z[k] == old(z[k])
+//@   label L11 invariant[restx] forall k in 0..len(z) :: x[k] == old(x[k])
+//@   label L11 modifies mem(z)
+//@   label L11 hint[head] mul_mono(x[SI], B-1, y)
+//@   label L11+7 hint assert(DX*18446744073709551616 + AX == old(x[SI])*y + old(z[SI]) + R11 && DX < B)
+//@   label L11 hint assert(R11*B + z[SI-1] == R13*18446744073709551616 + R14 && z[SI-1] < B && SI == SI_0 + 1)
+//@   label L11 hint assert(R11*B + z[SI-1] == old(x[SI-1])*y + old(z[SI-1]) + R11_0 && z[SI-1] < B && R11 < B && SI == SI_0 + 1)
+//@   label L11 hint Vdef(z, 0, SI-1)
+//@   label L11 hint Vdef(old(z), 0, SI-1)
+//@   label L11 hint Vdef(old(x), 0, SI-1)
+//@   label L11 hint Pdef(SI-1)
+//@   label L11 hint mul_eq(V(old(x), 0, SI), V(old(x), 0, SI-1) + old(x[SI-1])*P(SI-1), y)
+//@   label L11 hint mul_eq(R11*B + z[SI-1], old(x[SI-1])*y + old(z[SI-1]) + R11_0, P(SI-1))
+//@   label L11 hint mul_eq(P(SI), B*P(SI-1), R11)
+//@   hint[ret] len(z) > 0 ==> assert(R11*B + z[SI-1] == R13*18446744073709551616 + R14 && z[SI-1] < B && SI == SI_0 + 1)
+//@   hint[ret] len(z) > 0 ==> assert(R11*B + z[SI-1] == old(x[SI-1])*y + old(z[SI-1]) + R11_0 && z[SI-1] < B && R11 < B && SI == SI_0 + 1)
+//@   hint[ret] len(z) > 0 ==> Vdef(z, 0, len(z)-1)
+//@   hint[ret] len(z) > 0 ==> Vdef(old(z), 0, len(z)-1)
+//@   hint[ret] len(z) > 0 ==> Vdef(old(x), 0, len(z)-1)
+//@   hint[ret] len(z) > 0 ==> Pdef(len(z)-1)
+//@   hint[ret] len(z) > 0 ==> mul_eq(V(old(x), 0, SI), V(old(x), 0, SI-1) + old(x[SI-1])*P(SI-1), y)
+//@   hint[ret] len(z) > 0 ==> mul_eq(R11*B + z[SI-1], old(x[SI-1])*y + old(z[SI-1]) + R11_0, P(SI-1))
+//@   hint[ret] len(z) > 0 ==> mul_eq(P(SI), B*P(SI-1), R11)
+//@   tags safety C04,C07
 //@ func div10VWW(z, x []Word, y, xn Word) (r Word)
 //@   same div10VWW_g
-//@   status assumed assembly
+//@   asm dec_arith_amd64.s
+//@   label E7 invariant[range] 0 <= SI && SI <= len(z) && DX < y && CX == B
+//@   label E7 invariant[words] wordsok(z[SI:])
+//@   label E7 invariant[value] V(z[SI:])*y + DX == xn*P(len(z)-SI) + old(V(x[SI:len(z)]))
+//@   label E7 invariant[rest]  forall k in 0..SI :: x[k] == old(x[k])
+//@   label E7 modifies mem(z)
+//@   label E7 hint V_low(z, SI, len(z))
+//@   label E7 hint V_low(old(x), SI, len(z))
+//@   label E7 hint Pdef(len(z)-SI-1)
+//@   tags safety C04,C07
 
 // ---------------------------------------------------------------------------
 // D: dec (dec.go)
